@@ -73,10 +73,17 @@ pub struct RunCtx {
     pub in_callbacks: Cell<u32>,
     pub max_in_callbacks: Cell<u32>,
     pub emit_logs: bool,
+    /// tracing runs: the subscriber filters at WARN instead of INFO.
+    pub warn_filter: bool,
 }
 
 thread_local! {
     static RUN: RefCell<Option<Rc<RunCtx>>> = const { RefCell::new(None) };
+}
+
+/// A quarter of the tracing runs install their subscriber with a WARN filter.
+pub fn warn_filter_of(plan: &Plan) -> bool {
+    plan.seed % 4 == 2
 }
 
 pub fn install_run(core: &Rc<SimCore>, plan: &Rc<Plan>, emit_logs: bool) -> Rc<RunCtx> {
@@ -90,6 +97,7 @@ pub fn install_run(core: &Rc<SimCore>, plan: &Rc<Plan>, emit_logs: bool) -> Rc<R
         in_callbacks: Cell::new(0),
         max_in_callbacks: Cell::new(0),
         emit_logs,
+        warn_filter: emit_logs && warn_filter_of(plan),
     });
     RUN.with(|r| *r.borrow_mut() = Some(Rc::clone(&ctx)));
     ctx
@@ -137,6 +145,16 @@ fn fire(outcome: Outcome, token: &str) -> ! {
 
 #[cfg(feature = "tracing")]
 fn emit_log(tok: &str) {
+    // When the subscriber's filter is WARN (a quarter of the tracing runs) every generated event is a
+    // warning - an `info!` would be filtered out, and no Log event is owed for it.
+    if run_ctx().warn_filter {
+        match tok.bytes().map(u32::from).sum::<u32>() % 3 {
+            0 => tracing::warn!("{tok}"),
+            1 => tracing::error!("first line\nsecond line {tok}"),
+            _ => tracing::warn_span!("user_inner", depth = 1).in_scope(|| tracing::warn!("inner span {tok}")),
+        }
+        return;
+    }
     // message shapes: plain, multi-line, and containing the collector's `__` separator
     match tok.bytes().map(u32::from).sum::<u32>() % 6 {
         0 => tracing::info!("{tok}"),
